@@ -693,11 +693,11 @@ func (db *RockDB) DelIfEQ(ts int64, rawKey []byte, oldV []byte) (int64, error) {
 }
 
 func (db *RockDB) SetRange(ts int64, rawKey []byte, offset int, value []byte) (int64, error) {
-	if len(value) == 0 {
-		return 0, nil
-	}
 	if offset < 0 || offset > MaxValueSize {
 		return 0, errOffsetOutOfRange
+	}
+	if len(value) == 0 {
+		return 0, nil
 	}
 	if len(value)+offset > MaxValueSize {
 		return 0, errValueSize
